@@ -34,6 +34,23 @@ def strategy(tier):
     return _spec()
 
 
+def extra_cases(tier):
+    """In every run: a reduced population model whose parameter was fixed by name while the model was still configured for
+    its default single individual, with a heterogeneous part IN FRONT of the fixed parameter (the part grows when the
+    hierarchical likelihood sets the number of individuals, so positions shift while names stay)."""
+    out = []
+    ll = dict(n_out=1, n_par=1, ems=[dict(kind='gauss', fixed=None)], times=[[0.5, 1.0]], obs=[[1.0, 1.4]],
+              tmode='single', tied=False)
+    for n_ids in (2, 3):
+        for second in (dict(kind='gauss', n_dim=1, centered=True), dict(kind='lognorm', n_dim=1, centered=True)):
+            base = dict(kind='comp', parts=[dict(kind='hetero', n_dim=1), second])
+            pop = dict(kind='red', base=base, fixed=[n_ids + 1], values=[0.4])
+            out.append(dict(pop=pop, n_ids=n_ids, lls=[ll] * n_ids, ids=None, cov=None,
+                            vec=[0.5 + 0.1 * i for i in range(n_ids)] + [1.0 + 0.2 * i for i in range(n_ids)] + [0.5],
+                            prior=[dict(kind='lognormal', a=0.0, b=1.0)] * (n_ids + 1), late=True))
+    return out
+
+
 def classify(spec):
     return hbuild.classify(spec)
 
